@@ -1,6 +1,6 @@
 // Mode `ops`: the rest of the cursor code that Model/Cursor.lean mirrors.
 //
-//	go run . ops <lib/query>/cursor.go <lib/query>/processor.go <lib/query>/eval.go <lib/query>/reference_scope.go
+//	go run . ops <lib/query>/cursor.go <lib/query>/processor.go <lib/query>/eval.go <lib/query>/reference_scope.go <lib/query>/query.go
 //
 // Emitted (Gen/CursorOps.lean):
 //
@@ -452,11 +452,11 @@ func compositeFields(d *ast.FuncDecl) []string {
 }
 
 func mainOps(args []string) {
-	if len(args) != 4 {
-		fmt.Fprintln(os.Stderr, "usage: cursorfetch ops <cursor.go> <processor.go> <eval.go> <reference_scope.go>")
+	if len(args) != 5 {
+		fmt.Fprintln(os.Stderr, "usage: cursorfetch ops <cursor.go> <processor.go> <eval.go> <reference_scope.go> <query.go>")
 		os.Exit(2)
 	}
-	cur, proc, eval, rsf := parseOrDie(args[0]), parseOrDie(args[1]), parseOrDie(args[2]), parseOrDie(args[3])
+	cur, proc, eval, rsf, qry := parseOrDie(args[0]), parseOrDie(args[1]), parseOrDie(args[2]), parseOrDie(args[3]), parseOrDie(args[4])
 
 	var b strings.Builder
 	b.WriteString("/-\n  GENERATED by /verif/extract/cursorfetch (mode ops) from lib/query/cursor.go, processor.go, eval.go,\n  reference_scope.go — do not edit.\n-/\n")
@@ -488,6 +488,7 @@ func mainOps(args []string) {
 		b.WriteString("/-- " + doc + " -/\ndef " + name + " : List String := " + leanStrList(l) + "\n\n")
 	}
 	list("fxWhileInCursor", "(*Processor).WhileInCursor, whole statement structure", fx(findFunc(proc, "Processor", "WhileInCursor").Body.List))
+	list("fxFetchCursor", "func FetchCursor (query.go): position / number, the cursor is moved, THEN the number of variables is compared", fx(findFunc(qry, "", "FetchCursor").Body.List))
 	list("fxNewCursor", "fields NewCursor sets (view, index, fetched, isPseudo keep their zero values)", compositeFields(findFunc(cur, "", "NewCursor")))
 	list("fxNewPseudoCursor", "fields NewPseudoCursor sets", compositeFields(findFunc(cur, "", "NewPseudoCursor")))
 	for _, m := range []string{"Store", "Load", "Delete", "Exists", "Open", "Close", "Fetch", "IsOpen", "IsInRange", "Count"} {
